@@ -70,7 +70,9 @@ def inline_helpers(raw_bodies):
                     continue
                 loff = len(rb["locals"])
                 boff = len(rb["blocks"])
-                rb["locals"].extend(copy.deepcopy(cb["locals"]))
+                for lc in copy.deepcopy(cb["locals"]):
+                    lc["inlined"] = True
+                    rb["locals"].append(lc)
                 for d in cb.get("debug", []):
                     if "place" in d:
                         nd = _remap(d, loff, boff)
